@@ -166,7 +166,10 @@ def run(ctx):
 
     # ------------------------------------------------------------ R3
     prefixes = None
-    for n in repo.walk_with_tables(bmeas):  # the table may be a local of the function or a (possibly imported) module-level constant it reads
+    bm_nodes = list(repo.walk_with_tables(bmeas))
+    for h_ in repo.helpers_of(bmeas, depth=2):  # ... or of a helper the function hands the naming to
+        bm_nodes.extend(repo.walk_with_tables(h_))
+    for n in bm_nodes:  # the table may be a local of the function or a (possibly imported) module-level constant it reads
         if isinstance(n, ast.Dict) and n.values and all(k is not None for k in n.keys) and all(A.const_value(v) in ("alpha_", "gamma_", "") for v in n.values):
             prefixes = {A.const_value(k): A.const_value(v) for k, v in zip(n.keys, n.values)}
     want = {"normsys": "alpha_", "histosys": "alpha_", "shapesys": "gamma_", "staterror": "gamma_"}
@@ -174,7 +177,7 @@ def run(ctx):
         ctx.holds(r3, f"{W}::build_measurement prefixes", str(prefixes))
     else:
         ctx.violated(r3, bmeas, "prefixes", "constant-parameter names are not written with the HistFactory prefixes compat.paramset_to_rootnames uses", expected=str(want), found=str(prefixes))
-    lumi_name = any(isinstance(n, ast.If) and "'lumi'" in A.unparse(n.test) and "'Lumi'" in A.unparse(ast.Module(body=n.body, type_ignores=[])) for n in ast.walk(bmeas.node))
+    lumi_name = any(isinstance(n, ast.If) and "'lumi'" in A.unparse(n.test) and "'Lumi'" in A.unparse(ast.Module(body=n.body, type_ignores=[])) for n in bm_nodes)
     if lumi_name:
         ctx.holds(r3, f"{W}::build_measurement", "lumi -> 'Lumi'")
     else:
